@@ -528,7 +528,7 @@ class _insert_helper(Contract):
     defaults = dict(compact_key_prefixes=lambda ex: mk_bool(False))
     ret = TInt
     modifies = ("_storage", "_index")
-    theories = ("time", "mkpt")
+    theories = ("time", "mkpt", "any")
     witness_sig = {"bad": ([], TInt)}
 
     @staticmethod
@@ -619,7 +619,7 @@ class _insert(Contract):
     defaults = dict(measurement=NONE_STR, compact_key_prefixes=lambda ex: mk_bool(False))
     ret = TInt
     modifies = ("_storage", "_index")
-    theories = ("time", "mkpt")
+    theories = ("time", "mkpt", "any")
 
     @staticmethod
     def requires(c):
@@ -651,7 +651,7 @@ class _insert_multiple(Contract):
     defaults = dict(measurement=NONE_STR, compact_key_prefixes=lambda ex: mk_bool(False))
     ret = TInt
     modifies = ("_storage", "_index")
-    theories = ("time", "mkpt")
+    theories = ("time", "mkpt", "any")
     raises = dict(APPEND_RAISES, TypeError=staticmethod(lambda c: dict(
         when=z3.And(c.self.t["_storage"].t["appendable"].t, _insert_helper._raises(c)["when"]), ensures=_insert_helper._exc_ensures)))
 
